@@ -96,7 +96,7 @@ TStep ==
                THEN TrKnown(tr, "C09_K2_sequential_met_single_step")
                ELSE /\ ChkT(tr, r, "reader '" \o rd.reader \o "' rejected a valid file: " \o rd.exc, rd.res = "ok")
                     /\ ChkS(tr, r, "reader '" \o rd.reader \o "' does not present the encoded content",
-                            ContentDiagH(c, tr.names, rd.got, c.nt, rd.reader = "memmap", rd.reader = "memmap")))
+                            ContentDiagH(c, tr.names, rd.got, c.nt, rd.reader = "memmap" /\ c.fmt # "landuse", rd.reader = "memmap")))
           \* C13: when both reader families accept the file they expose the same
           \* lengths, data and time flags
           /\ (Prop = "C13" /\ (\A r \in 1..Len(tr.reads) : tr.reads[r].res = "ok") =>
@@ -119,7 +119,7 @@ TStep ==
           \* C08: round trip and idempotent rewrite
           /\ (Prop = "C08" =>
                 /\ ChkT(tr, 1, "re-read raised: " \o tr.rexc, tr.rres = "ok")
-                /\ ChkS(tr, 1, "read(write(f)) differs from f", ContentDiagH(c, tr.names, tr.got, c.nt, TRUE, TRUE))
+                /\ ChkS(tr, 1, "read(write(f)) differs from f", ContentDiagH(c, tr.names, tr.got, c.nt, c.fmt # "landuse", TRUE))
                 /\ ChkT(tr, 1, "write(read(write(f))) is not byte-identical to write(f)", tr.same_bytes))
        [] tr.kind = "cuts" ->
           \A p \in 1..Len(tr.obs) : LET o == tr.obs[p] IN
